@@ -1,6 +1,7 @@
 package main
 
 import (
+	"crypto/tls"
 	"fmt"
 	"strings"
 	"sync"
@@ -16,15 +17,15 @@ import (
 func init() {
 	register(&Check{
 		ID: "C03", Level: "exploration", Primary: "cases", EvalCount: "requests_routed",
-		Rule: "route tables = every sequence of up to k routes (k=2 quick, 3 thorough) over a 14-spec alphabet (bind; search with base in {unset,dc=a} x filter in {unset,(cn=x)} x scope in {unset,2}; " +
-			"extended A/B; modify; add; delete) x {no default, default, default registered twice} x {no unbind route, unbind registered twice}, plus random tables up to length 8 with case variants and scope 1; " +
-			"each table is served on a fresh connection the full 34-request alphabet (bind; search over 3 bases x 3 filters x 3 scopes; extended A/B/C; modify; add; delete) plus Unbind, all pipelined. " +
+		Rule: "route tables = every sequence of up to k routes (k=2 quick, 3 thorough) over a 15-spec alphabet (bind; search with base in {unset,dc=a} x filter in {unset,(cn=x)} x scope in {unset,2}; " +
+			"extended A/B/StartTLS-name; modify; add; delete) x {no default, default, default registered twice} x {no unbind route, unbind registered twice}, plus random tables up to length 8 with case variants and scope 1; " +
+			"each table is served on a fresh connection the full 34-request alphabet (bind; search over 3 bases x 3 filters x 3 scopes; extended A/B/C; modify; add; delete) plus Unbind, all pipelined; every fifth table is served over a TLS listener. " +
 			"Oracle: 15-line reference model (first matching route, else last-registered default, else built-in refusal). distinct_nontrivial = distinct (route-table signature, request, outcome) triples observed",
 		Assume: []string{"re-registering the default or unbind route replaces the earlier registration (last registration wins)"},
 		Phases: func(tier string, seed int64) []Phase {
 			return []Phase{{Name: "tables", Run: c03Tables}, {Name: "goldap-noroute", Run: c03GoLDAP}}
 		},
-		MinObserved: []string{"requests_routed", "outcome/builtin", "outcome/default", "outcome/first_of_several", "outcome/shadowed_later_route"},
+		MinObserved: []string{"requests_routed", "outcome/builtin", "outcome/default", "outcome/first_of_several", "outcome/shadowed_later_route", "tables_over_tls"},
 	})
 }
 
@@ -82,7 +83,8 @@ func c03RouteAlphabet() []rspec {
 			}
 		}
 	}
-	return append(out, rspec{Kind: "ext", Name: extA}, rspec{Kind: "ext", Name: extB}, rspec{Kind: "modify"}, rspec{Kind: "add"}, rspec{Kind: "delete"})
+	// the StartTLS name is an extended operation like any other as far as routing goes (it is merely served inline)
+	return append(out, rspec{Kind: "ext", Name: extA}, rspec{Kind: "ext", Name: extB}, rspec{Kind: "ext", Name: sber.OIDStartTLS}, rspec{Kind: "modify"}, rspec{Kind: "add"}, rspec{Kind: "delete"})
 }
 
 func c03Requests() []creq {
@@ -94,7 +96,7 @@ func c03Requests() []creq {
 			}
 		}
 	}
-	out = append(out, creq{Kind: "ext", Name: extA}, creq{Kind: "ext", Name: extB}, creq{Kind: "ext", Name: extC}, creq{Kind: "modify"}, creq{Kind: "add"}, creq{Kind: "delete"})
+	out = append(out, creq{Kind: "ext", Name: extA}, creq{Kind: "ext", Name: extB}, creq{Kind: "ext", Name: extC}, creq{Kind: "ext", Name: sber.OIDStartTLS}, creq{Kind: "modify"}, creq{Kind: "add"}, creq{Kind: "delete"})
 	for i := range out {
 		out[i].ID = int64(1000 + i*7)
 	}
@@ -183,7 +185,9 @@ func (t c03Table) sig() string {
 }
 
 // c03RunTable serves the whole request alphabet against one route table.
-func c03RunTable(c *Ctx, srv *Srv, t c03Table, reqs []creq) {
+func c03RunTable(c *Ctx, srv *Srv, t c03Table, reqs []creq) { c03RunTableOn(c, srv, nil, t, reqs) }
+
+func c03RunTableOn(c *Ctx, srv *Srv, ctc *tls.Config, t c03Table, reqs []creq) {
 	var mu sync.Mutex
 	var recs []c03Rec
 	mk := func(name string) gldap.HandlerFunc {
@@ -241,7 +245,7 @@ func c03RunTable(c *Ctx, srv *Srv, t c03Table, reqs []creq) {
 		c.Inconclusive("Router: " + err.Error())
 		return
 	}
-	cl, err := dialRaw(srv.Addr, nil)
+	cl, err := dialRaw(srv.Addr, ctc)
 	if err != nil {
 		c.Inconclusive("dial: " + err.Error())
 		return
@@ -414,6 +418,7 @@ func c03RunTable(c *Ctx, srv *Srv, t c03Table, reqs []creq) {
 }
 
 func c03Tables(c *Ctx) {
+	pki := newPKI()
 	alpha := c03RouteAlphabet()
 	reqs := c03Requests()
 	k := c.N(2, 3)
@@ -467,10 +472,22 @@ func c03Tables(c *Ctx) {
 				c.Inconclusive("server start: " + err.Error())
 				return
 			}
+			tlsSrv, err := startSrv(SrvCfg{TLS: pki.ServerOnly}, nil)
+			if err != nil {
+				c.Inconclusive("server start: " + err.Error())
+				return
+			}
+			defer tlsSrv.StopWithin(patience)
 			for {
 				i := int(next.Add(1)) - 1
 				if i >= len(tables) {
 					break
+				}
+				if i%5 == 4 {
+					// the same routing over a TLS listener (the connection state must not change which handler is chosen)
+					c03RunTableOn(c, tlsSrv, pki.ClientPlain, tables[i], reqs)
+					c.Count("tables_over_tls", 1)
+					continue
 				}
 				c03RunTable(c, srv, tables[i], reqs)
 				// thorough: every 4th table is also served in reverse request order on the SAME mux via a second table run
